@@ -46,7 +46,7 @@ def config_strategy(batching="mixed"):
             "pmax": draw(st.sampled_from([2, 2, 3, 7])), "fmax": draw(st.sampled_from([2, 4])), "bootstrap": [0], "rseed": draw(st.integers(0, 999)),
             "acks": draw(st.sampled_from([1, 1, -1, 0])), "batch": batch, "every_n": n, "every_b": b, "every_t": t,
             "codec": draw(st.sampled_from([0, 0, 1])), "max_attempts": draw(st.integers(1, 4)), "retry_interval": draw(st.sampled_from([0.05, 0.25])),
-            "hashed": draw(st.sampled_from([False, False, True])),
+            "hashed": draw(st.sampled_from([False, False, True])), "md_order": draw(st.sampled_from(_cl.MD_ORDERS)),
         }
 
     return cfg()
@@ -279,11 +279,13 @@ class PRODEngine(Engine):
                 self.note("C18.hashed-java-colocation", "C18.hashed/through-producer-depends-on-more-than-key-and-list", "key %r over %r selected %r; a fresh partitioner selects %r" % (key, L, res, want))
             return
         n = len(L)
-        if list(L) != sorted(L) or n == 0:
+        if n == 0:
             return
+        # fairness is over the topic's partitions: the producer hands the partitioner the client's list, which is ascending whatever
+        # order the broker listed them in (a list in another order is the same set of partitions and must not restart or skew the cycle)
         seg = []
         for x in reversed(seq):
-            if x[0] != L:
+            if sorted(x[0]) != sorted(L):
                 break
             seg.append(x)
         if len(seg) >= n:
@@ -689,7 +691,9 @@ class PRODEngine(Engine):
                     if self.config["hashed"] and s.key is not None and len(s.appearances) == 1:
                         plist = rec["plist"].get(tp[0]) or []
                         if plist:
-                            want = plist[(_jvm._fallback(s.key) & 0x7FFFFFFF) % len(plist)]
+                            # the Java client numbers a topic's partitions 0..n-1 and takes hash % n as the partition id: the order in
+                            # which a broker happened to list them must not matter
+                            want = sorted(plist)[(_jvm._fallback(s.key) & 0x7FFFFFFF) % len(plist)]
                             if want != tp[1]:
                                 self.note("C18.hashed-java-colocation", "C18.end-to-end-partition", "send #%d key %r went to partition %r; Java murmur2 selects %r of %r" % (s.no, s.key, tp[1], want, plist))
             # produce rounds: the producer has at most one send_produce_request call in progress, so a produce frame
